@@ -66,7 +66,7 @@ package price
 //@   ensures @closed: forall m *commodity.Commodity, n *commodity.Commodity :: {key(rawval(ps, m), n)} (m in result) && has(ps, m, n) ==> (n in result)
 //@   ensures @just: forall n *commodity.Commodity :: {key(result, n)} (n in result) && n != t ==>
 //@        (exists m *commodity.Commodity :: (m in result) && has(ps, m, n) && result[n] == mult(ps[m][n], result[m]))
-//@   ensures [C12] @direct: forall n *commodity.Commodity :: {key(rawval(ps, t), n)} has(ps, t, n) && n != t ==> (n in result) && result[n] == mult(ps[t][n], 1.0)
+//@   ensures [C12] [C06] @direct: forall n *commodity.Commodity :: {key(rawval(ps, t), n)} has(ps, t, n) && n != t ==> (n in result) && result[n] == mult(ps[t][n], 1.0)
 //
 // Theory of decimal multiplication as far as the proofs need it (trusted; validated by the stand-in
 // 'decimal' against shopspring/decimal): multiplication is odd in its first argument and x*1 = x.
